@@ -340,7 +340,17 @@ class FullFrontend(ConstrainedFrontend):
 
         unsat_core = self._solver_backend.unsat_core(self._get_solver())
 
-        return tuple(unsat_core)
+        # The backend recognises a tracked formula through a cache that it shares with every other solver and that
+        # downsize() empties; what it cannot find there comes back rebuilt from the formula (5 <=s x for x >=s 5,
+        # annotations gone, or another solver's annotations). Hand back this solver's own constraints instead,
+        # matched by the formula they convert to.
+        own = [(self._solver_backend.convert(c), c) for c in self.constraints]
+
+        def as_added(e):
+            formula = self._solver_backend.convert(e)
+            return next((c for f, c in own if f.eq(formula)), e)
+
+        return tuple(as_added(e) for e in unsat_core)
 
     #
     # Serialization and such.
